@@ -41,7 +41,9 @@ EMBEDDED = {
         "def draw_ok():\n    np.random.seed(5)\n    return np.random.permutation(3)\n"
         "def fan(pool, xs):\n    return [f.result() for f in futures.as_completed([pool.submit(abs, x) for x in xs])]\n"
         "CACHE = {}\n"
-        "def do_state(k):\n    CACHE[k] = 1\n    return k\n"
+        "def do_state(k, scale):\n    if k not in CACHE:\n        CACHE[k] = k * scale\n    return CACHE[k]\n"          # a memo whose key leaves out `scale`: stale answers
+        "MEMO = {}\n"
+        "def do_memo(k, scale):\n    key = (k, scale)\n    if key not in MEMO:\n        MEMO[key] = k * scale\n    return MEMO[key]\n"   # keyed by everything the value depends on: not hidden state
         "_RNG = np.random.RandomState(7)\n"
         "def shared_draw(n):\n    return _RNG.permutation(n)\n"
         "def local_draw(n):\n    rng = np.random.RandomState(7)\n    return rng.permutation(n)\n"
@@ -363,6 +365,9 @@ def d4_hidden_state(chk, prog, eff):
                     and isinstance(n.func.value, ast.Name):
                 tgt = n.func.value.id
             if tgt and tgt in module_containers and tgt not in local_names:
+                if rules.complete_memo(fi, tgt):
+                    chk.note(f"{fi.qn} keeps a cache in `{tgt}` keyed by every parameter its values depend on: what it returns does not depend on earlier calls")
+                    continue
                 chk.violate("no-hidden-state", f"{fi.qn}::{tgt}", fi.loc(n), f"writes module-level container `{tgt}`: {norm(n)[:60]}")
         # mutable default mutated
         a = fi.node.args
@@ -370,6 +375,9 @@ def d4_hidden_state(chk, prog, eff):
         defaults = [None] * (len(pos) - len(a.defaults)) + list(a.defaults)
         for arg, d in list(zip(pos, defaults)) + list(zip(a.kwonlyargs, a.kw_defaults)):
             if d is not None and isinstance(d, (ast.List, ast.Dict, ast.Set)) and arg.arg in eff.sum[fi.qn].mut:
+                if rules.complete_memo(fi, arg.arg):
+                    chk.note(f"{fi.qn} keeps a cache in its default argument `{arg.arg}` keyed by every parameter its values depend on: what it returns does not depend on earlier calls")
+                    continue
                 chk.violate("no-hidden-state", f"{fi.qn}::default {arg.arg}", fi.loc(d), f"mutable default `{arg.arg}={norm(d)}` is mutated: results depend on call history")
     shared_state(chk, prog)
     chk.ok("no-hidden-state", f"{n_fn} functions scanned", cells=n_fn)
@@ -519,6 +527,14 @@ def run(chk):
 
 
 MUTANTS = [
+    dict(name="twin: reference copies memoised in a module-level table keyed by every argument", expect="silent", edits=[
+        ("cnvlib/call.py", "def _reference_copies_pure(chrom, ploidy, is_haploid_x_reference):", "_REF_COPIES_MEMO = {}\n\n\ndef _reference_copies_pure(chrom, ploidy, is_haploid_x_reference):"),
+        ("cnvlib/call.py", "    chrom = chrom.lower()\n    if chrom in [\"chry\", \"y\"] or (is_haploid_x_reference and chrom in [\"chrx\", \"x\"]):\n        ref_copies = ploidy // 2\n    else:\n        ref_copies = ploidy\n    return ref_copies\n",
+         "    key = (chrom, ploidy, bool(is_haploid_x_reference))\n    if key not in _REF_COPIES_MEMO:\n        name = chrom.lower()\n        if name in [\"chry\", \"y\"] or (is_haploid_x_reference and name in [\"chrx\", \"x\"]):\n            _REF_COPIES_MEMO[key] = ploidy // 2\n        else:\n            _REF_COPIES_MEMO[key] = ploidy\n    return _REF_COPIES_MEMO[key]\n")]),
+    dict(name="reference copies memoised in a module-level table keyed without the ploidy", edits=[
+        ("cnvlib/call.py", "def _reference_copies_pure(chrom, ploidy, is_haploid_x_reference):", "_REF_COPIES_MEMO = {}\n\n\ndef _reference_copies_pure(chrom, ploidy, is_haploid_x_reference):"),
+        ("cnvlib/call.py", "    chrom = chrom.lower()\n    if chrom in [\"chry\", \"y\"] or (is_haploid_x_reference and chrom in [\"chrx\", \"x\"]):\n        ref_copies = ploidy // 2\n    else:\n        ref_copies = ploidy\n    return ref_copies\n",
+         "    key = (chrom, bool(is_haploid_x_reference))\n    if key not in _REF_COPIES_MEMO:\n        name = chrom.lower()\n        if name in [\"chry\", \"y\"] or (is_haploid_x_reference and name in [\"chrx\", \"x\"]):\n            _REF_COPIES_MEMO[key] = ploidy // 2\n        else:\n            _REF_COPIES_MEMO[key] = ploidy\n    return _REF_COPIES_MEMO[key]\n")]),
     dict(name="GenomicArray.copy wraps the same table", file="skgenome/gary.py", old="        return self.as_dataframe(self.data.copy())", new="        return self.as_dataframe(self.data)"),
     # (GenomicArray.__init__ copies the metadata mapping itself, so passing it uncopied changes nothing)
     dict(name="twin: as_dataframe passes the metadata dict uncopied", expect="silent", file="skgenome/gary.py", old="        return self.__class__(dframe, self.meta.copy())", new="        return self.__class__(dframe, self.meta)"),
@@ -542,7 +558,7 @@ MUTANTS = [
     dict(name="as_completed in segmentation", file="cnvlib/segmentation/__init__.py", old="            rets = list(\n                pool.map(", new="            from concurrent import futures as _f\n            _f.as_completed([])\n            rets = list(\n                pool.map(", mention="as_completed"),
     dict(name="shift_xx mutates self", file="cnvlib/cnary.py", old="        outprobes = self.copy()\n", new="        outprobes = self\n", mention="shift_xx"),
     dict(name="segmetrics on input", file="cnvlib/segmetrics.py", old="    segarr = segarr.copy()\n", new="", mention="do_segmetrics"),
-    dict(name="module cache in do_target", file="cnvlib/target.py", old="def do_target(", new="_CACHE = {}\n\n\ndef _remember(k):\n    _CACHE[k] = 1\n\n\ndef do_target(", mention="_CACHE"),
+    dict(name="module cache in do_target", file="cnvlib/target.py", old="def do_target(", new="_CACHE = {}\n\n\ndef _remember(k, v):\n    _CACHE.setdefault(k, v)\n    return _CACHE[k]\n\n\ndef do_target(", mention="_CACHE"),
     dict(name="ensure_path renames onto fixed suffix", file="cnvlib/core.py", old="        os.rename(fname, bak_fname)", new="        os.rename(fname, fname + '.1')", mention="ensure_path"),
     dict(name="ensure_path call deleted in _cmd_reference", file="cnvlib/commands.py", old="    core.ensure_path(ref_fname)\n", new="", mention="_cmd_reference"),
     dict(name="tabio.read writes caller meta", file="skgenome/tabio/__init__.py", old="    meta = dict(meta) if meta is not None else {}\n", new="    if meta is None:\n        meta = {}\n", mention="tabio.read"),
